@@ -127,6 +127,32 @@ class SourceMapModel(object):
             debug=('pyfunc', lambda *a, **k: None))
         return ev
 
+    DRIVER = '''
+def __two_calls__(first, second, stream):
+    book = default_book()
+    sources = Names()
+    names = Names()
+    mappings, _, _ = write(
+        first, stream, normalize=False, book=book, sources=sources,
+        names=names)
+    return write(
+        second, stream, normalize=False, book=book, sources=sources,
+        names=names, mappings=mappings)
+'''
+
+    def run_write_twice(self, first, second):
+        """the documented multi-call use (test_multiple_call): one book,
+        one Names for sources and names, the mappings handed on"""
+        written = []
+        stream = Obj('Stream', write=('pyfunc', written.append))
+        ev = self.evaluator()
+        fd = ast.parse(self.DRIVER).body[0]
+        try:
+            ret, _ = ev.call(fd, [list(first), list(second), stream])
+        except Raised as e:
+            return 'raises %s' % e.text, ''.join(written)
+        return ret, ''.join(written)
+
     def run_write(self, fragments, normalize):
         written = []
         stream = Obj('Stream', write=('pyfunc', written.append))
@@ -201,9 +227,14 @@ def expectations(fragments):
     return out
 
 
-def check_stream(model, fragments, normalize):
-    """list of problems (strings) for one stream"""
-    ret, text = model.run_write(fragments, normalize)
+def check_stream(model, fragments, normalize, split=None):
+    """list of problems (strings) for one stream; split: the stream is
+    written by two calls sharing book, sources, names and mappings"""
+    if split is None:
+        ret, text = model.run_write(fragments, normalize)
+    else:
+        ret, text = model.run_write_twice(fragments[:split],
+                                          fragments[split:])
     if isinstance(ret, str):
         return [ret]
     try:
@@ -284,11 +315,17 @@ def classify(problem):
 
 
 def _worker(arg):
-    root, streams = arg
+    root, streams = arg[:2]
     from engine.srcindex import SourceIndex
     try:
         model = SourceMapModel(SourceIndex(root))
         out = []
+        if len(arg) > 2:
+            for frags in streams:
+                for split in range(1, len(frags)):
+                    out.append((frags, split, check_stream(
+                        model, frags, False, split=split)))
+            return out
         for frags in streams:
             for normalize in (False, True):
                 out.append((frags, normalize,
@@ -359,6 +396,52 @@ def run(report, index, tier):
                 '; '.join(problems[:3]), witness=repr(frags),
                 where='sourcemap.py:write / normalize_mapping_line')
     report.count('fragment streams evaluated', n)
+    # R09.4: two calls sharing their bookkeeping ----------------------------
+    r4 = report.rule('R09.4', 'two write calls sharing book, sources, names '
+                     'and mappings yield the map of the concatenated '
+                     'stream (normalisation off; all splits of the '
+                     'abstract streams up to %d fragments, three sources)'
+                     % bound, floor=500)
+    third = [f for f in alpha if f[3] == 'S2']
+    alpha3 = alpha + [(t, k, nm, 'S3') for t, k, nm, _ in third] + [
+        (t, k, 'orig2', s_) for t, k, nm, s_ in alpha if nm == 'orig']
+    seen4 = set()
+    failing4 = {}
+    n4 = 0
+    jobs4 = []
+    for k in range(2, bound + 1):
+        for stream in itertools.product(alpha3 if k < bound else alpha,
+                                        repeat=k):
+            job = concretise(stream)
+            if repr(job) in seen4:
+                continue
+            seen4.add(repr(job))
+            jobs4.append(job)
+    size = max(1, len(jobs4) // (workers * 4))
+    parts = [jobs4[i:i + size] for i in range(0, len(jobs4), size)]
+    with cf.ProcessPoolExecutor(max_workers=workers) as ex:
+        for res in ex.map(_worker, [(index.root, p, 'split')
+                                    for p in parts]):
+            if isinstance(res, str):
+                raise AnalysisError(res)
+            for job, split, problems in res:
+                n4 += 1
+                if not problems:
+                    r4.ok('split stream')
+                    continue
+                failing4.setdefault(classify(problems[0]), []).append(
+                    (job, split, problems))
+    for cls, items in sorted(failing4.items()):
+        job, split, problems = min(items, key=lambda it: len(it[0]))
+        r4.fail('two calls: %s' % cls,
+                'sourcemap.write(%r, ...) then sourcemap.write(%r, ..., '
+                'mappings=mappings) with shared book / sources / names  '
+                '(+%d more splits)' % (job[:split], job[split:],
+                                       len(items) - 1),
+                '; '.join(problems[:3]), witness=repr((job[:split],
+                                                       job[split:])),
+                where='sourcemap.py:write / Names / Bookkeeper')
+    report.count('two-call streams evaluated', n4)
     # R09.2 ---------------------------------------------------------------
     r2 = report.rule('R09.2', 'encode_sourcemap serialises exactly the '
                      'mappings, sources and names it is given', floor=3)
